@@ -94,6 +94,16 @@ fn sql_lit(rng: &mut Rng, t: Ty) -> String {
     }
 }
 
+/// a condition (WHERE, operand of AND / OR, WHEN clause): BOOLEAN-typed, but one in fourteen is an INT / TEXT / REAL
+/// expression — a value without a truth value, which must make the run report an error wherever it is evaluated (D69)
+pub fn gen_sql_condition(rng: &mut Rng, depth: usize, sch: &Schema, joined: bool) -> String {
+    if rng.chance(1, 14) {
+        let t = *rng.pick(&[Ty::Int, Ty::Int, Ty::Text, Ty::Real]);
+        return gen_sql_expr(rng, depth.min(1), t, sch, joined);
+    }
+    gen_sql_expr(rng, depth, Ty::Bool, sch, joined)
+}
+
 pub fn gen_sql_expr(rng: &mut Rng, depth: usize, t: Ty, sch: &Schema, joined: bool) -> String {
     if depth == 0 || rng.chance(1, 4) {
         if rng.chance(1, 16) { return "NULL".to_owned(); }
@@ -101,12 +111,13 @@ pub fn gen_sql_expr(rng: &mut Rng, depth: usize, t: Ty, sch: &Schema, joined: bo
     }
     let d = depth - 1;
     let mut sub = |rng: &mut Rng, t: Ty| gen_sql_expr(rng, d, t, sch, joined);
+    let cond = |rng: &mut Rng| gen_sql_condition(rng, d, sch, joined);
     match t {
         Ty::Int => match rng.below(8) {
             0 | 1 | 2 => format!("({} {} {})", sub(rng, Ty::Int), rng.pick(&["+", "-", "*", "/"]), sub(rng, Ty::Int)),
             3 => format!("abs({})", sub(rng, Ty::Int)),
             4 => format!("length({})", sub(rng, Ty::Text)),
-            5 => format!("(CASE WHEN {} THEN {} ELSE {} END)", sub(rng, Ty::Bool), sub(rng, Ty::Int), sub(rng, Ty::Int)),
+            5 => format!("(CASE WHEN {} THEN {} ELSE {} END)", cond(rng), sub(rng, Ty::Int), sub(rng, Ty::Int)),
             6 => format!("greatest({}, {})", sub(rng, Ty::Int), sub(rng, Ty::Int)),
             _ => format!("(- {})", sub(rng, Ty::Int)),
         },
@@ -119,7 +130,7 @@ pub fn gen_sql_expr(rng: &mut Rng, depth: usize, t: Ty, sch: &Schema, joined: bo
             0 => format!("upper({})", sub(rng, Ty::Text)),
             1 => format!("lower({})", sub(rng, Ty::Text)),
             2 => format!("({})::text", sub(rng, Ty::Int)),
-            _ => format!("(CASE WHEN {} THEN {} ELSE {} END)", sub(rng, Ty::Bool), sub(rng, Ty::Text), sub(rng, Ty::Text)),
+            _ => format!("(CASE WHEN {} THEN {} ELSE {} END)", cond(rng), sub(rng, Ty::Text), sub(rng, Ty::Text)),
         },
         Ty::Bool => match rng.below(9) {
             0 | 1 | 2 => {
@@ -128,7 +139,7 @@ pub fn gen_sql_expr(rng: &mut Rng, depth: usize, t: Ty, sch: &Schema, joined: bo
                 format!("({} {} {})", l, rng.pick(&["=", "!=", "<", "<=", ">", ">="]), r)
             }
             3 => format!("({} IS {}NULL)", sub(rng, *rng.clone().pick(&[Ty::Int, Ty::Text, Ty::Real])), if rng.chance(1, 2) { "NOT " } else { "" }),
-            4 | 5 => format!("({} {} {})", sub(rng, Ty::Bool), rng.pick(&["AND", "OR"]), sub(rng, Ty::Bool)),
+            4 | 5 => format!("({} {} {})", cond(rng), rng.pick(&["AND", "OR"]), cond(rng)),
             6 => format!("(NOT {})", sub(rng, Ty::Bool)),
             7 => {
                 let ot = *rng.pick(&[Ty::Int, Ty::Text]);
@@ -205,7 +216,7 @@ pub fn gen_query(rng: &mut Rng, sch: &Schema, opts: &QueryOpts, join_path: &str)
         clauses.push(format!("{} JOIN u::'{}' ON {} = {}", if rng.chance(1, 3) { "OUTER" } else { "INNER" }, join_path, l, r));
     }
     if rng.chance(1, 2) {
-        clauses.push(format!("WHERE {}", gen_sql_expr(rng, 2, Ty::Bool, sch, joined)));
+        clauses.push(format!("WHERE {}", gen_sql_condition(rng, 2, sch, joined)));
     }
     if aggregate && !group_parts.is_empty() {
         clauses.push(format!("GROUP BY {}", group_parts.join(", ")));
@@ -243,6 +254,11 @@ pub fn gen_having(rng: &mut Rng, sch: &Schema, joined: bool, select_list: &[Stri
     };
     let a = pick(rng);
     let b = pick(rng);
+    // one HAVING in fourteen is not a BOOLEAN: a bare aggregate, or an AND / OR with a bare aggregate as an operand (D69:
+    // a group on which it is evaluated and not NULL makes the run report an error)
+    if rng.chance(1, 14) {
+        return match rng.below(3) { 0 => a, 1 => format!("{} AND {}", cmp(rng, &b), a), _ => format!("{} OR {}", a, cmp(rng, &b)) };
+    }
     match rng.below(8) {
         0 | 1 => cmp(rng, &a),
         2 => { let lo = rng.below(3); format!("{} >= {} AND {} <= {}", a, lo, a, lo + 1 + rng.below(3)) }
